@@ -593,7 +593,7 @@ impl IoUringSubmissionQueueEntry {
             ioprio: 0,
             fd: socket.0,
             __bindgen_anon_1: io_uring_sqe__bindgen_ty_1 {
-                off: core::ptr::addr_of!(sockaddr.addr_len) as u64,
+                off: sockaddr.addr_len as u64,
             },
             __bindgen_anon_2: io_uring_sqe__bindgen_ty_2 {
                 addr: core::ptr::addr_of!(sockaddr.addr) as u64,
